@@ -136,6 +136,20 @@ def blockAt (p : Padder) (m : List Nat) (i : Nat) : List Nat := (m.drop (i * p.b
 def loopYields (p : Padder) (st : PadState) (m : List Nat) (k : Nat) : List (List Nat × PadState) :=
   (List.range k).map fun i => (p.blockAt m i, { st with bitcnt := st.bitcnt + (i + 1) * p.blocksize })
 
+/-- the end of a padded `iterblocks` call: the one or two blocks cut from what `lastblock` returned (or its
+    exception), the counter reset for padding-only blocks -/
+def finishTail (p : Padder) (ys : List (List Nat × PadState)) (st1 : PadState) (pi : List Nat) :
+    Except Err (List Nat × PadState) → IterResult
+  | .error e => ⟨ys, p.lastblockErrState st1 pi, some e⟩
+  | .ok (npi, st2) =>
+    let st2 : PadState := if st2.bitcnt = st1.bitcnt then { st2 with bitcnt := 0 } else st2
+    let b := npi.take p.blocklen
+    let lastb := npi.drop p.blocklen
+    if lastb.length > 0 then
+      let st3 := { st2 with bitcnt := 0 }
+      ⟨ys ++ [(b, st2), (lastb, st3)], st3, none⟩
+    else ⟨ys ++ [(b, st2)], st2, none⟩
+
 /-- `iterblocks(m, bitlen=…, padding=…)` (after the `fix:` commits: an explicit `bitlen=0` is 0; `lastblock`
     receives the absolute bit length `start+bitlen`; a tail without message bits reports `bitcnt = 0`) -/
 def iterblocks (p : Padder) (st : PadState) (m : List Nat) (bitlenKw : Option Nat := none)
@@ -146,26 +160,14 @@ def iterblocks (p : Padder) (st : PadState) (m : List Nat) (bitlenKw : Option Na
   if bitlen > mlen then ⟨[], st, some "PaddingError:input bitlen mismatch"⟩ else
   if !padding ∧ bitlen % p.blocksize > 0 then ⟨[], st, some "PaddingError:input not a multiple of block size"⟩ else
   if !padding ∧ bitlen = 0 then ⟨[], st, none⟩ else
-  let B := p.blocksize
-  let bl := p.blocklen
   let k := p.loopCount bitlen
-  let start := st.bitcnt
   let ys := p.loopYields st m k
-  let st1 : PadState := { st with bitcnt := start + k * B }
+  let st1 : PadState := { st with bitcnt := st.bitcnt + k * p.blocksize }
   let pi := p.blockAt m k
   if padding then
-    match p.lastblock st1 pi (bitlenKw.map (start + ·)) with
-    | .error e => ⟨ys, p.lastblockErrState st1 pi, some e⟩
-    | .ok (npi, st2) =>
-      let st2 : PadState := if st2.bitcnt = st1.bitcnt then { st2 with bitcnt := 0 } else st2
-      let b := npi.take bl
-      let lastb := npi.drop bl
-      if lastb.length > 0 then
-        let st3 := { st2 with bitcnt := 0 }
-        ⟨ys ++ [(b, st2), (lastb, st3)], st3, none⟩
-      else ⟨ys ++ [(b, st2)], st2, none⟩
+    p.finishTail ys st1 pi (p.lastblock st1 pi (bitlenKw.map (st.bitcnt + ·)))
   else
-    let st2 := { st1 with bitcnt := start + (k + 1) * B }
+    let st2 := { st1 with bitcnt := st.bitcnt + (k + 1) * p.blocksize }
     ⟨ys ++ [(pi, st2)], st2, none⟩
 
 /-- index of the last '1' of `str(b)` -/
